@@ -3,19 +3,27 @@
 PROVED (coq/Properties_C17.v, model coq/Files.v of pnc_filelist / pnc_numfiles / new_id_PNCList /
 del_from_PNCList / PNC_check_id and of the exits of ncmpi_create / ncmpi_open / ncmpi_close / ncmpi_abort,
 for EVERY history with arbitrary ids): table invariant, ids valid exactly between the create/open that
-returned them and the close/abort that released them, first-free reuse, NC_MAX_NFILES files then NC_ENFILE,
-independence of slots; check_id soundness and crash freedom for the check WITH a NULL-slot test, their
-REFUTATION for the check as written (F8) with the partial statement, and the verdict for the sources as
-built (switches read from file.c by tools/tr_modes.py); accounting of the PNC object of a refused
-create/open; close reports and cancels pending requests (from the C14 model).
+returned them and the close/abort that released them, the allocator finds an unused id whenever the table is
+not full (new_id_finds_free_slot; refuted for the variant that scans from pnc_numfiles), NC_MAX_NFILES files
+then NC_ENFILE, independence of slots; check_id soundness and crash freedom for the check WITH a NULL-slot
+test, their refutation for the check without it, and the verdict for the sources as built (switches read
+from file.c by tools/tr_modes.py); accounting of the PNC object of a refused create/open; close reports and
+cancels pending requests (from the C14 model).  That the code reissues the FIRST free id (id_reuse_first_free)
+is a fact about the model, not a demand of the property: no oracle below asks for it.
 
-TIE (id table): histories of create/open (succeeding, NC_EEXIST, missing file, not a netCDF file, corrupt
-header), close, abort, API calls of many families and nonblocking posts with valid, stale, never-used,
-negative and huge ids are run through harness/pnc_impl on the real library and through the model
-(vm_compute of Files.run_codes on the same histories written as Coq terms); every return code and every
-returned ncid is compared.  A history for which the model predicts the NULL dereference is run in its own
-process; a crash of the implementation there is a violation of the property ('check_id:null-slot').
-harness/c17_limit opens NC_MAX_NFILES files for real.
+TIE (id table), in this order so that a broken proof or model never hides a failing input:
+ 1. IMPLEMENTATION-ONLY ORACLE.  Histories of create/open (succeeding, NC_EEXIST, missing file, not a netCDF
+    file, 5-byte file, corrupt header), close, abort, API calls of many families and nonblocking posts, addressed
+    through the ids the library actually returned (script slots), through stale ids and through literal negative /
+    huge / never-used ids, are run through harness/pnc_impl with harness/c17_shim.c, which after EVERY event records
+    ncmpi_inq_files_opened (count and list).  Judged from the log alone: a returned id is >= 0, < NC_MAX_NFILES and
+    not currently open; it is usable at once; an id is refused with NC_EBADID exactly when it is not open; close
+    answers NC_EPENDING exactly when requests are pending; a failing create/open opens nothing; the library's list
+    of open files equals the set of ids handed out and not yet released; the process survives.
+    harness/c17_limit does the same with NC_MAX_NFILES files: fill the table, refused creates/opens (NC_ENFILE,
+    ncid -1), close LOW ids out of order, open that many again (unused valid ids), full again, close all, count 0.
+ 2. MODEL CORRESPONDENCE.  The same histories with the ids that were observed are written as Coq terms and
+    Files.run_codes is evaluated by vm_compute; every return code and every returned ncid is compared.
 
 OBSERVED, NOT PROVED (resources): the same histories, a list of named scenarios (every early exit we know of)
 and a sample of mode-machine scripts are run on a library configured with --enable-debug (heap:
@@ -36,7 +44,7 @@ ASSUMPTIONS = [
 CHECKER_CMD = ('tools/tr_consts.py + tools/tr_modes.py && coq_makefile -f _CoqProject -o Makefile && make -k -j16 Properties_C17.vo && '
                'coqc -Q . Pnc Properties_C17.v (Print Assumptions); model runs: coqc of generated cases files (Eval vm_compute)')
 
-NOERR, EBADID, ENFILE, EEXIST, ENOENT, ENOTNC, EPENDING, EFILE = 0, -33, -34, -35, -220, -51, -236, -204
+NOERR, EBADID, ENFILE, EEXIST, ENOENT, ENOTNC, EPENDING, EFILE, EPERM = 0, -33, -34, -35, -220, -51, -236, -204, -37
 MAXF = 1024
 
 
@@ -44,217 +52,179 @@ def hx(s):
     return s.encode().hex()
 
 
-# ------------------------------------------------------------------ histories
+# ------------------------------------------------------------------ histories (id-agnostic: ids live in script slots)
+# file slots: 0..3 real files, 4 = file with netCDF magic and a corrupt header (made by the check), 5 = never created,
+# 6 = junk (not netCDF), 7 = scratch slot for literal ids (setid)
+INQ = ['inq_nreqs %d', 'inq %d', 'inq_numrecs %d']
+# for an id believed stale: anything that neither posts/completes requests nor releases the file
+API_STALE = ['inq_nreqs %d', 'inq %d', 'sync %d', 'redef %d', 'enddef %d', 'put %d c 0 var1 t4 c 1 0 pat 1', 'get %d i 0 var1 t4 c 1 0',
+             'def_dim %%d %s 3' % hx('q'), 'put_att %%d -1 %s 4 1 5' % hx('a'), 'begin_indep %d', 'end_indep %d', 'fill_var_rec %d 0 0',
+             'inq_var_fill %d 0', 'flush %d', 'set_fill %d 0', 'rename_var %%d 0 %s' % hx('w'), 'del_att %%d -1 %s' % hx('a'),
+             'get_att %%d -1 %s' % hx('a'), 'sync_numrecs %d', 'inq_buffer %d', 'def_var %%d %s 4 0' % hx('s'),
+             'rename_dim %%d 0 %s' % hx('y'), '_enddef %d 0 0 0 0', 'inq_attid %%d -1 %s' % hx('a'), 'def_var_fill %d 0 0 0 0']
+# for a literal id that cannot be open: every family
+API_ANY = API_STALE + ['wait %d c -1', 'wait %d i 0', 'attach %d 100', 'detach %d', 'cancel %d -1', 'iput %d 9 0 var1 t4 c 1 0 pat 1',
+                       'iget %d 10 0 var1 t4 c 1 0', 'bput %d 11 0 var1 t4 c 1 0 pat 2', 'copy_att %%d -1 %s %%d -1' % hx('a')]
+LITERALS = [-1, -2, -5, -2 ** 31, MAXF, MAXF + 1, 4096, 2 ** 31 - 1, MAXF - 1, MAXF - 2, 500]
+
+
+def fmt(t, k):
+    return t % tuple([k] * t.count('%d'))
+
+
 class Ev:
-    """kind: create|open|close|abort|api|post ; for create/open: fslot, outcome ('ok'|'early:<rc>'|'driver:<rc>'), lines;
-    for the others: id, lines"""
-    def __init__(self, kind, coq, lines, cmp_line, what):
-        self.kind = kind; self.coq = coq; self.lines = lines; self.cmp = cmp_line; self.what = what
+    """one event = some script lines; the line `cmp` carries the return code that is judged.
+    kind: create | open | api | post | close | abort ; slot: script slot used ; lit: literal id put into slot 7 first
+    expect: for create/open 'ok' | 'early' | 'driver' ; coqfail: Coq outcome for an expected failure"""
+    def __init__(self, kind, lines, cmp, slot, what, lit=None, expect=None, coqfail=None, inquiry=False):
+        self.kind = kind; self.lines = lines; self.cmp = cmp; self.slot = slot; self.what = what
+        self.lit = lit; self.expect = expect; self.coqfail = coqfail; self.inquiry = inquiry
 
 
-API_OK = ['inq_nreqs 7', 'inq 7', 'inq_numrecs 7', 'inq_name 7 v %s' % hx('v')]
-API_ANY = ['inq_nreqs 7', 'inq 7', 'sync 7', 'redef 7', 'enddef 7', 'put 7 c 0 var1 t4 c 1 0 pat 1', 'get 7 i 0 var1 t4 c 1 0',
-           'def_dim 7 %s 3' % hx('q'), 'put_att 7 -1 %s 4 1 5' % hx('a'), 'wait 7 c -1', 'wait 7 i 0', 'begin_indep 7', 'end_indep 7',
-           'attach 7 100', 'detach 7', 'fill_var_rec 7 0 0', 'inq_var_fill 7 0', 'flush 7', 'cancel 7 -1', 'set_fill 7 0',
-           'rename_var 7 0 %s' % hx('w'), 'del_att 7 -1 %s' % hx('a'), 'get_att 7 -1 %s' % hx('a'), 'sync_numrecs 7',
-           'inq_buffer 7', 'iput 7 9 0 var1 t4 c 1 0 pat 1', 'iget 7 10 0 var1 t4 c 1 0', 'bput 7 11 0 var1 t4 c 1 0 pat 2',
-           'def_var 7 %s 4 0' % hx('s'), 'rename_dim 7 0 %s' % hx('y'), '_enddef 7 0 0 0 0', 'inq_attid 7 -1 %s' % hx('a'),
-           'def_var_fill 7 0 0 0 0', 'copy_att 7 -1 %s 7 -1' % hx('a')]
+def ev_dump(evs):
+    return [dict(kind=e.kind, lines=e.lines, cmp=e.cmp, slot=e.slot, what=e.what, lit=e.lit, expect=e.expect, coqfail=e.coqfail, inquiry=e.inquiry) for e in evs]
+
+
+def ev_load(l):
+    return [Ev(x['kind'], x['lines'], x['cmp'], x['slot'], x['what'], lit=x['lit'], expect=x['expect'], coqfail=x['coqfail'], inquiry=x['inquiry']) for x in l]
 
 
 class Gen:
-    """generator with a replica of the table (first-free) to know which literal id to pass; the replica only
-    chooses inputs — predictions come from the Coq model"""
-    NF = 5            # file slots 0..4 = real files; 5 = never created (missing); 6 = junk; file 'c' corrupt via slot 6 variants
-    def __init__(self, rng, allow_crash):
+    """chooses inputs only; it believes nothing about WHICH ids the library hands out"""
+    NF = 4
+    def __init__(self, rng):
         self.rng = rng
-        self.tab = {}                 # id -> fslot
-        self.origin = {}; self.pending = {}; self.features = set()
+        self.open = {}                 # file slot -> 'rw' | 'ro' (believed open)
         self.exists = [False] * self.NF
+        self.used = [False] * self.NF  # slot holds an id that was returned once
+        self.created = {}              # slot -> True if the current handle came from create
         self.evs = []
         self.rs = 0
-        self.closed_ids = []
-        self.allow_crash = allow_crash
-        self.dead = False
-        self.napi = 0
-    def first_free(self):
-        i = 0
-        while i in self.tab:
-            i += 1
-        return i
-    def open_slots(self):
-        return set(self.tab.values())
-    def add(self, kind, coq, lines, cmp_line, what):
-        self.evs.append(Ev(kind, coq, lines, cmp_line, what))
+        self.n = 0
+    def add(self, *a, **k):
+        self.evs.append(Ev(*a, **k))
     def ev_create(self):
         r = self.rng
-        free = [k for k in range(self.NF) if k not in self.open_slots()]
+        free = [k for k in range(self.NF) if k not in self.open]
         if not free:
-            return False
+            return
         k = r.choice(free)
         if self.exists[k] and r.chance(1, 3):
-            self.add('create', 'ECreate (ODriver NC_EEXIST)', ['* create %d 1 0' % k], 0, 'create NOCLOBBER on an existing file')
-            return True
+            self.add('create', ['* create %d 1 0' % k], 0, k, 'create NOCLOBBER on an existing file', expect='driver', coqfail='ODriver NC_EEXIST')
+            return
         clobber = 1 if self.exists[k] else r.choice([0, 1])
-        i = self.first_free()
-        self.tab[i] = k; self.exists[k] = True; self.origin[i] = 'create'; self.pending[i] = 0
-        fmt = r.choice([1, 2, 5])
-        self.add('create', 'ECreate OOk', ['* create %d %d %d' % (k, fmt, clobber),
-                                         '* def_dim %d %s 4' % (k, hx('x')), '* def_var %d %s 4 1 0' % (k, hx('v'))], 0, 'create')
-        return True
+        self.open[k] = 'rw'; self.exists[k] = True; self.used[k] = True; self.created[k] = True
+        self.add('create', ['* create %d %d %d' % (k, r.choice([1, 2, 5]), clobber), '* def_dim %d %s 4' % (k, hx('x')),
+                            '* def_var %d %s 4 1 0' % (k, hx('v'))], 0, k, 'create', expect='ok')
     def ev_open(self):
         r = self.rng
-        c = r.below(10)
+        c = r.below(12)
         if c == 0:
-            self.add('open', 'EOpen (OEarly NC_ENOENT)', ['* open 5 %d' % r.choice([0, 1])], 0, 'open of a missing file')
-            return True
-        if c == 1:
-            self.add('open', 'EOpen (OEarly NC_ENOTNC)', ['* junk 6 64 %d' % r.below(200), '* open 6 0'], 1, 'open of a file that is not netCDF')
-            return True
-        if c == 2:
-            self.add('open', 'EOpen (OEarly NC_EFILE)', ['* junk 6 5 1', '* open 6 1'], 1, 'open of a 5-byte file')
-            return True
-        cand = [k for k in range(self.NF) if self.exists[k] and k not in self.open_slots()]
-        if not cand:
-            return False
-        k = r.choice(cand)
-        i = self.first_free()
-        rw = r.choice([0, 1])
-        self.tab[i] = k; self.origin[i] = 'open' if rw else 'open-ro'; self.pending[i] = 0
-        self.add('open', 'EOpen OOk', ['* open %d %d' % (k, rw)], 0, 'open')
-        return True
-    def pick_id(self, want_valid):
-        r = self.rng
-        if want_valid:
-            return r.choice(sorted(self.tab)) if self.tab else None
-        c = r.below(6)
-        if c == 0: return -1 - r.below(5)
-        if c == 1: return r.choice([MAXF, MAXF + 1, 2 ** 31 - 1, 4096, -2 ** 31])
-        if c == 2 and self.closed_ids: return r.choice(self.closed_ids)          # stale
-        if c == 3: return self.first_free() + r.below(3)                          # never used (or stale)
-        if c == 4: return r.choice([MAXF - 1, MAXF - 2, 500])
-        return r.choice(self.closed_ids) if self.closed_ids else self.first_free()
-    def risky(self, i):
-        """as the code is written: an in-range id whose slot is empty while some file is open"""
-        return 0 <= i < MAXF and i not in self.tab and len(self.tab) > 0
+            self.add('open', ['* open 5 %d' % r.choice([0, 1])], 0, 5, 'open of a missing file', expect='early', coqfail='OEarly NC_ENOENT')
+        elif c == 1:
+            self.add('open', ['* junk 6 64 %d' % r.below(200), '* open 6 0'], 1, 6, 'open of a file that is not netCDF', expect='early', coqfail='OEarly NC_ENOTNC')
+        elif c == 2:
+            self.add('open', ['* junk 6 5 1', '* open 6 1'], 1, 6, 'open of a 5-byte file', expect='early', coqfail='OEarly NC_EFILE')
+        elif c == 3:
+            self.add('open', ['* open 4 %d' % r.choice([0, 1])], 0, 4, 'open of a file with a corrupt header', expect='driver', coqfail='ODriver')
+        else:
+            cand = [k for k in range(self.NF) if self.exists[k] and k not in self.open]
+            if not cand:
+                return
+            k = r.choice(cand)
+            rw = r.choice([0, 1])
+            self.open[k] = 'rw' if rw else 'ro'; self.used[k] = True; self.created[k] = False
+            self.add('open', ['* open %d %d' % (k, rw), '* inq %d' % k], 0, k, 'open', expect='ok')
     def ev_idop(self):
         r = self.rng
-        valid = r.chance(3, 5) and bool(self.tab)
-        i = self.pick_id(valid)
-        if i is None:
-            return False
-        if not valid and self.risky(i):
-            if not self.allow_crash:
-                return False
-            self.dead = True         # the model decides; generation stops here either way
-        kind = r.choice(['api', 'api', 'api', 'post', 'close', 'close', 'abort'])
-        pre = '* setid 7 %d' % i
-        if kind == 'api':
-            self.napi += 1
-            l = (API_OK[self.napi % len(API_OK)] if i in self.tab else API_ANY[(self.napi * 7 + r.below(3)) % len(API_ANY)])
-            self.add('api', 'EApi (%d)' % i, [pre, '* ' + l], 1, l.split()[0] + (' on id %d' % i))
-        elif kind == 'post':
-            self.rs = (self.rs + 1) % 60
-            if i in self.tab:
-                self.pending[i] += 1
-                if self.origin.get(i) == 'open-ro':
-                    self.add('post', 'EPost (%d)' % i, [pre, '* iget 7 %d 0 var1 t4 c 1 0' % self.rs], 1, 'iget on id %d' % i)
-                else:
-                    self.add('post', 'EPost (%d)' % i, [pre, '* iput 7 %d 0 var1 t4 c 1 0 pat 3' % self.rs], 1, 'iput on id %d' % i)
+        self.n += 1
+        c = r.below(10)
+        if c < 5 and self.open:                       # an id believed valid
+            k = r.choice(sorted(self.open))
+            kind = r.choice(['api', 'api', 'post', 'close', 'close', 'abort'])
+            if kind == 'api':
+                l = fmt(INQ[self.n % len(INQ)], k)
+                self.add('api', ['* ' + l], 0, k, l.split()[0], inquiry=True)
+            elif kind == 'post':
+                self.rs = (self.rs + 1) % 60
+                op = 'iput %d %d 0 var1 t4 c 1 0 pat 3' if (self.open[k] == 'rw' and r.chance(1, 2)) else 'iget %d %d 0 var1 t4 c 1 0'
+                self.add('post', ['* ' + op % (k, self.rs)], 0, k, op.split()[0])
             else:
-                self.add('api', 'EApi (%d)' % i, [pre, '* iput 7 %d 0 var1 t4 c 1 0 pat 3' % self.rs], 1, 'iput on id %d' % i)
-        else:
-            self.add(kind, '%s (%d)' % ('EClose' if kind == 'close' else 'EAbort', i), [pre, '* %s 7' % kind], 1, '%s of id %d' % (kind, i))
-            if i in self.tab:
-                k = self.tab.pop(i)
-                self.closed_ids.append(i)
-                if self.pending.get(i, 0) > 0:
-                    self.features.add('%s-with-pending' % kind)
-                # abort of a handle that came from create (never enddef'ed here) deletes the file
-                if kind == 'abort' and self.origin.get(i) == 'create':
+                self.add(kind, ['* %s %d' % (kind, k)], 0, k, kind)
+                del self.open[k]
+                if kind == 'abort' and self.created.get(k):
                     self.exists[k] = False
-        return True
+        elif c < 8:                                   # a stale id (slot closed) or a slot that never held an id
+            cand = [k for k in range(self.NF) if k not in self.open] + [5, 6]
+            k = r.choice(cand)
+            # (no abort here: should the library have reissued this id, abort could delete another slot's new file
+            #  and the generator's idea of which files exist would be wrong; the oracle itself is id-based)
+            kind = r.choice(['api', 'api', 'api', 'close'])
+            if kind == 'api':
+                l = fmt(API_STALE[(self.n * 7 + r.below(3)) % len(API_STALE)], k)
+                self.add('api', ['* ' + l], 0, k, l.split()[0] + ' through a released or unused slot')
+            else:
+                self.add(kind, ['* %s %d' % (kind, k)], 0, k, kind + ' through a released or unused slot')
+        else:                                         # a literal id
+            i = r.choice(LITERALS)
+            kind = r.choice(['api', 'api', 'api', 'close', 'abort'])
+            if kind == 'api':
+                l = fmt(API_ANY[(self.n * 5 + r.below(3)) % len(API_ANY)], 7)
+                self.add('api', ['* setid 7 %d' % i, '* ' + l], 1, 7, '%s on literal id %d' % (l.split()[0], i), lit=i)
+            else:
+                self.add(kind, ['* setid 7 %d' % i, '* %s 7' % kind], 1, 7, '%s of literal id %d' % (kind, i), lit=i)
     def finish(self):
-        # also after a use of an empty slot (self.dead): if the library survives it (repaired check), the files must
-        # still be closed; if it does not, the process is gone before these lines
-        for i in sorted(self.tab):
-            if self.pending.get(i, 0) > 0:
-                self.features.add('close-with-pending')
-            self.add('close', 'EClose (%d)' % i, ['* setid 7 %d' % i, '* close 7'], 1, 'final close of id %d' % i)
-        self.tab = {}
-        # with nothing open every id is refused without a crash
-        for i in (0, 1, -1, MAXF, 7):
-            self.add('api', 'EApi (%d)' % i, ['* setid 7 %d' % i, '* inq_nreqs 7'], 1, 'inq_nreqs on id %d, no file open' % i)
+        for k in sorted(self.open):
+            self.add('close', ['* close %d' % k], 0, k, 'final close')
+        self.open = {}
+        for k in range(self.NF):
+            if self.used[k]:
+                self.add('api', ['* inq_nreqs %d' % k], 0, k, 'inq_nreqs after everything was closed')
+        for i in (0, 1, -1, MAXF):
+            self.add('api', ['* setid 7 %d' % i, '* inq_nreqs 7'], 1, 7, 'inq_nreqs on literal id %d, nothing open' % i, lit=i)
 
 
-def gen_history(rng, n, allow_crash):
-    g = Gen(rng, allow_crash)
+def gen_history(rng, n):
+    g = Gen(rng)
     tries = 0
-    while len(g.evs) < n and not g.dead and tries < 10 * n:
+    while len(g.evs) < n and tries < 10 * n:
         tries += 1
         c = rng.below(10)
         if c < 2: g.ev_create()
         elif c < 4: g.ev_open()
         else: g.ev_idop()
     g.finish()
-    return g.evs, g.features
+    return g.evs
 
 
 def fixed_histories():
-    """hand-written histories: the F8 witnesses and the boundary ids"""
     H = []
-    def h(name, items):
-        evs = []
-        for kind, coq, lines, cmp_line, what in items:
-            evs.append(Ev(kind, coq, lines, cmp_line, what))
-        H.append((name, evs, {'close-pending': {'close-with-pending'}, 'abort-pending': {'abort-with-pending'}}.get(name, set())))
-    cr = lambda k: ('create', 'ECreate OOk', ['* create %d 1 1' % k, '* def_dim %d %s 4' % (k, hx('x')), '* def_var %d %s 4 1 0' % (k, hx('v'))], 0, 'create')
-    def op(kind, i, line=None):
-        coq = {'api': 'EApi', 'close': 'EClose', 'abort': 'EAbort', 'post': 'EPost'}[kind]
-        l = line or {'api': 'inq_nreqs 7', 'close': 'close 7', 'abort': 'abort 7', 'post': 'iput 7 1 0 var1 t4 c 1 0 pat 1'}[kind]
-        return (kind, '%s (%d)' % (coq, i), ['* setid 7 %d' % i, '* ' + l], 1, '%s on id %d' % (l.split()[0], i))
-    h('stale-close-while-other-open', [cr(0), cr(1), op('close', 0), op('close', 0), op('close', 1)])
-    h('stale-api-while-other-open', [cr(0), cr(1), op('close', 0), op('api', 0), op('close', 1)])
-    h('never-used-id-while-other-open', [cr(0), op('api', 7), op('close', 0)])
-    h('never-used-last-id-while-other-open', [cr(0), op('api', MAXF - 1, 'sync 7'), op('abort', 0)])
-    h('stale-put-while-other-open', [cr(0), cr(1), op('abort', 1), op('api', 1, 'put 7 c 0 var1 t4 c 1 0 pat 1'), op('close', 0)])
-    h('stale-after-all-closed', [cr(0), cr(1), op('close', 0), op('close', 1), op('api', 0), op('close', 1), op('abort', 0)])
-    h('boundary-ids-while-open', [cr(0), op('api', -1), op('api', MAXF), op('api', 2 ** 31 - 1), op('api', -2 ** 31), op('close', MAXF),
-                                  op('abort', -7), op('close', 0)])
-    h('reuse-order', [cr(0), cr(1), cr(2), op('close', 1), cr(3), op('close', 0), op('close', 2), cr(4), op('api', 0), op('api', 1),
-                      op('close', 0), op('close', 1)])
-    h('close-pending', [cr(0), op('post', 0), op('post', 0), op('close', 0), op('api', 0)])
-    h('abort-pending', [cr(0), op('post', 0), op('abort', 0), op('api', 0)])
+    cr = lambda k: Ev('create', ['* create %d 1 1' % k, '* def_dim %d %s 4' % (k, hx('x')), '* def_var %d %s 4 1 0' % (k, hx('v'))], 0, k, 'create', expect='ok')
+    op_ = lambda k, w=0: Ev('open', ['* open %d %d' % (k, w), '* inq %d' % k], 0, k, 'open', expect='ok')
+    def op(kind, k, line=None):
+        l = line or {'api': 'inq_nreqs %d', 'close': 'close %d', 'abort': 'abort %d', 'post': 'iget %d 1 0 var1 t4 c 1 0'}[kind]
+        l = fmt(l, k)
+        return Ev(kind, ['* ' + l], 0, k, l.split()[0], inquiry=(kind == 'api' and line is None))
+    def lit(kind, i, line=None):
+        l = fmt(line or {'api': 'inq_nreqs %d', 'close': 'close %d', 'abort': 'abort %d'}[kind], 7)
+        return Ev(kind, ['* setid 7 %d' % i, '* ' + l], 1, 7, '%s on literal id %d' % (l.split()[0], i), lit=i)
+    H.append(('stale-close-while-other-open', [cr(0), cr(1), op('close', 0), op('close', 0), op('close', 1)]))
+    H.append(('stale-api-while-other-open', [cr(0), cr(1), op('close', 0), op('api', 0, 'sync %d'), op('close', 1)]))
+    H.append(('never-used-id-while-other-open', [cr(0), lit('api', 7), lit('api', 1), lit('api', MAXF - 1, 'sync %d'), op('abort', 0)]))
+    H.append(('stale-put-while-other-open', [cr(0), cr(1), op('abort', 1), op('api', 1, 'put %d c 0 var1 t4 c 1 0 pat 1'), op('close', 0)]))
+    H.append(('stale-after-all-closed', [cr(0), cr(1), op('close', 0), op('close', 1), op('api', 0), op('close', 1), op('abort', 0)]))
+    H.append(('boundary-ids-while-open', [cr(0), lit('api', -1), lit('api', MAXF), lit('api', 2 ** 31 - 1), lit('api', -2 ** 31), lit('close', MAXF),
+                                          lit('abort', -7), op('close', 0)]))
+    H.append(('release-and-reissue', [cr(0), cr(1), cr(2), op('close', 1), cr(3), op('close', 0), op('close', 2), cr(1), op('api', 0), op('api', 1),
+                                      op('api', 3), op('close', 3), op('close', 1), cr(0), op_(1), op_(2, 1), op('close', 1), op('close', 0), op('close', 2)]))
+    H.append(('close-pending', [cr(0), op('post', 0), op('post', 0, 'iput %d 2 0 var1 t4 c 1 0 pat 1'), op('close', 0), op('api', 0)]))
+    H.append(('abort-pending', [cr(0), op('post', 0), op('abort', 0), op('api', 0)]))
+    H.append(('failed-opens-between', [cr(0), Ev('open', ['* open 4 0'], 0, 4, 'open of a file with a corrupt header', expect='driver', coqfail='ODriver'),
+                                       Ev('open', ['* open 5 0'], 0, 5, 'open of a missing file', expect='early', coqfail='OEarly NC_ENOENT'),
+                                       cr(1), Ev('open', ['* open 4 1'], 0, 4, 'open of a file with a corrupt header', expect='driver', coqfail='ODriver'),
+                                       op('close', 0), Ev('create', ['* create 0 1 0'], 0, 0, 'create NOCLOBBER on an existing file', expect='driver', coqfail='ODriver NC_EEXIST'),
+                                       cr(2), op('close', 1), op('close', 2)]))
     return H
-
-
-# ------------------------------------------------------------------ model (Coq, vm_compute)
-def model_results(hists, wd, tag):
-    """hists: list of lists of Ev -> list of (list of (rc, ncid), numfiles, heap); None on failure"""
-    txt = ['From Coq Require Import ZArith List.', 'From Pnc Require Import Gen_consts Files.', 'Import ListNotations.',
-           'Local Open Scope Z_scope.', 'Set Printing Depth 10000000.', 'Set Printing Width 1000.',
-           'Definition cases : list (list ev) := [']
-    txt.append(';\n'.join('  [' + '; '.join(e.coq for e in h) + ']' for h in hists))
-    txt.append('].')
-    txt.append('Eval vm_compute in (map (fun h => (run_codes h, final_numfiles h, final_heap h)) cases).')
-    name = 'Cases_%s' % tag
-    open(os.path.join(wd, name + '.v'), 'w').write('\n'.join(txt) + '\n')
-    rc, out = C.sh(['coqc', '-Q', C.COQ, 'Pnc', '-w', '-all', name + '.v'], cwd=wd, timeout=900)
-    if rc != 0:
-        return None, out[-1500:]
-    body = out[out.index('='):]
-    nums = [int(x) for x in re.findall(r'-?\d+', body.replace('%Z', ''))]
-    res = []
-    p = 0
-    for h in hists:
-        n = len(h)
-        ev = [(nums[p + 2 * j], nums[p + 2 * j + 1]) for j in range(n)]
-        p += 2 * n
-        res.append((ev, nums[p], nums[p + 1]))
-        p += 2
-    if p != len(nums):
-        return None, 'cannot parse the model output (%d of %d numbers consumed)' % (p, len(nums))
-    return res, ''
 
 
 # ------------------------------------------------------------------ running
@@ -262,23 +232,29 @@ CORRUPT = b'CDF\x01' + b'\xff' * 16
 
 
 def script_of(evs, np_=1):
+    """every event is followed by `barrier` = table probe of the shim"""
     L = ['nprocs %d' % np_, 'env PNETCDF_SAFE_MODE=0']
     where = []
     for e in evs:
         base = len(L)
         L.extend(e.lines)
-        where.append(base + e.cmp + 1)
+        where.append(base + 1)           # line number of the first line of the event
+        L.append('* barrier')
     return '\n'.join(L) + '\n', where
 
 
 def run_impl(exe, script, wd, tag, env=None, np_=1, timeout=120):
     d = os.path.join(wd, tag)
     os.makedirs(d, exist_ok=True)
+    if not os.path.exists(os.path.join(d, 'f4.nc')):
+        open(os.path.join(d, 'f4.nc'), 'wb').write(CORRUPT)
     sp = os.path.join(d, 'script.txt')
     open(sp, 'w').write(script)
     e = dict(os.environ) if np_ == 1 else {}
     e.update(PNC_DIR=d, PNC_OUT=os.path.join(d, 'out'))
     e['C17_REPORT'] = os.path.join(d, 'rep')
+    if np_ == 1:
+        e['C17_TABLE_PROBE'] = '1'
     if env:
         e.update(env)
     if np_ == 1:
@@ -302,14 +278,22 @@ def run_impl(exe, script, wd, tag, env=None, np_=1, timeout=120):
         except OSError:
             pass
         logs.append((lg, lastline))
-    reps = []
+    reps, probes = [], []
     for r in range(np_):
         try:
-            reps.append([l.strip() for l in open(os.path.join(d, 'rep.%d' % r)) if l.startswith('C17 ')])
+            ls = [l.strip() for l in open(os.path.join(d, 'rep.%d' % r))]
         except OSError:
-            reps.append([])
+            ls = []
+        reps.append([l for l in ls if l.startswith('C17 ')])
+        pr = []
+        for l in ls:
+            if l.startswith('C17#'):
+                m = re.match(r'C17#(\d+) files=(-?\d+) listed=(-?\d+) ids=(.*)$', l)
+                if m:
+                    pr.append((int(m.group(2)), int(m.group(3)), [int(x) for x in m.group(4).split(',') if x]))
+        probes.append(pr)
     shutil.rmtree(d, ignore_errors=True)
-    return rc, out, logs, reps
+    return rc, out, logs, reps, probes
 
 
 def parse_report(line):
@@ -336,6 +320,203 @@ def leaks_of(rep, debug):
         if a != b:
             out.append((nm, '%d created, %d freed' % (a, b)))
     return out
+
+
+# ------------------------------------------------------------------ the implementation-only oracle
+POSTS = ('iput', 'iget', 'bput')
+
+
+def judge(evs, where, rc, out, lg, lastline, probes):
+    """-> (failures, coq events, observed results, features).  failures: list of dict(key, what, event index).
+    Reconstructs from the log which ids are open (ids RETURNED and not yet RELEASED) — nothing is assumed about
+    which id the library chooses."""
+    fails = []
+    slots = {k: -1 for k in range(8)}
+    open_ids = {}            # id -> pending request count
+    coq, obs, feats = [], [], set()
+    def fail(key, what, j):
+        fails.append(dict(key=key, what=what, event=j))
+    for j, (e, ln0) in enumerate(zip(evs, where)):
+        ln = ln0 + e.cmp
+        t = lg.get(ln)
+        if e.lit is not None:
+            slots[7] = e.lit
+        if t is None:
+            if rc not in (0,):
+                fail('crash:' + e.what.split()[0], 'the process %s in: %s (exit code %s)%s' % ('hung' if rc == -9 else 'died', e.what, rc,
+                     (' [' + lastline + ']') if lastline else ''), j)
+            else:
+                fail('harness:no-log-line', 'no log line for: ' + e.what, j)
+            break
+        try:
+            irc = int(t[1])
+        except ValueError:
+            fail('harness:bad-log-line', ' '.join(t), j)
+            break
+        if e.kind in ('create', 'open'):
+            ncid = int(t[2]) if len(t) > 2 else -99
+            obs.append((irc, ncid))
+            if e.expect == 'ok':
+                coq.append('ECreate OOk' if e.kind == 'create' else 'EOpen OOk')
+                if irc != 0:
+                    fail('create-open:refused', '%s failed with %d although fewer than NC_MAX_NFILES (%d) files are open' % (e.what, irc, len(open_ids)), j)
+                    coq[-1] = None
+            else:
+                coq.append(('ECreate (%s)' if e.kind == 'create' else 'EOpen (%s)') % (e.coqfail if e.coqfail != 'ODriver' else 'ODriver (%d)' % irc))
+                if irc == 0:
+                    fail('create-open:unexpected-success', '%s returned NC_NOERR' % e.what, j)
+                    coq[-1] = None
+            if irc == 0:
+                if not (0 <= ncid < MAXF):
+                    fail('create-open:invalid-id', '%s returned NC_NOERR with ncid %d (the handle is lost: it can be neither used nor closed)' % (e.what, ncid), j)
+                elif ncid in open_ids:
+                    fail('create-open:duplicate-id', '%s returned ncid %d, which is the id of a file that is still open' % (e.what, ncid), j)
+                else:
+                    open_ids[ncid] = 0
+                    for extra in range(1, len(e.lines) - e.cmp):
+                        t2 = lg.get(ln + extra)
+                        if t2 is not None and t2[1] != '0':
+                            fail('new-id:not-usable', '%s on the id %d just returned by %s gives %s' % (t2[0], ncid, e.what, t2[1]), j)
+            elif ncid >= 0:
+                fail('create-open:id-on-failure', '%s failed (%d) but set ncid to %d' % (e.what, irc, ncid), j)
+            if ncid >= 0:
+                slots[e.slot] = ncid
+        else:
+            i = slots[e.slot]
+            valid = i in open_ids
+            obs.append((irc, -99))
+            opname = t[0]
+            if e.kind in ('close', 'abort'):
+                coq.append('%s (%d)' % ('EClose' if e.kind == 'close' else 'EAbort', i))
+                if not valid:
+                    if irc != EBADID:
+                        fail('bad-id:accepted', '%s of id %d, which is not open, returned %d instead of NC_EBADID' % (e.kind, i, irc), j)
+                else:
+                    want = EPENDING if (e.kind == 'close' and open_ids[i] > 0) else NOERR
+                    if open_ids[i] > 0:
+                        feats.add('%s-with-pending' % e.kind)
+                    if irc == EBADID:
+                        fail('valid-id:refused', '%s of the open id %d returned NC_EBADID' % (e.kind, i), j)
+                    elif irc != want:
+                        fail('close:return-code', '%s of id %d with %d pending requests returned %d, expected %d' % (e.kind, i, open_ids[i], irc, want), j)
+                    if irc != EBADID:
+                        del open_ids[i]
+            else:
+                ispost = opname in POSTS
+                coq.append(('EPost (%d)' if (e.kind == 'post') else 'EApi (%d)') % i)
+                if not valid:
+                    if irc != EBADID:
+                        fail('bad-id:accepted', '%s with id %d, which is not open, returned %d instead of NC_EBADID' % (opname, i, irc), j)
+                else:
+                    if irc == EBADID:
+                        fail('valid-id:refused', '%s with the open id %d returned NC_EBADID' % (opname, i), j)
+                    elif (e.inquiry or e.kind == 'post') and irc != 0:
+                        fail('valid-id:call-failed', '%s with the open id %d returned %d' % (opname, i, irc), j)
+                    if ispost and irc == 0:
+                        open_ids[i] += 1
+                    if irc == 0 and (opname == 'cancel' or (opname == 'wait' and len(t) > 2 and t[2] == '-1')):
+                        open_ids[i] = 0
+        # table probe after the event
+        if j < len(probes):
+            cnt, listed, ids = probes[j]
+            if cnt != len(open_ids) or listed != len(open_ids) or sorted(ids) != sorted(open_ids):
+                fail('inq_files_opened:mismatch', 'after %s: ncmpi_inq_files_opened says %d files %s, the ids handed out and not released are %s'
+                     % (e.what, cnt, sorted(ids)[:12], sorted(open_ids)[:12]), j)
+        elif rc == 0:
+            fail('harness:no-probe', 'no table probe after ' + e.what, j)
+    else:
+        if rc != 0:
+            fail('crash:at-exit', 'the process %s after the last event (exit code %s)' % ('hung' if rc == -9 else 'died', rc), len(evs) - 1)
+        elif open_ids:
+            fail('harness:files-left-open', 'history left %s open' % sorted(open_ids), len(evs) - 1)
+    return fails, coq, obs, feats
+
+
+# ------------------------------------------------------------------ model (Coq, vm_compute)
+def model_results(hists, wd, tag):
+    """hists: list of lists of Coq event strings -> list of (list of (rc, ncid), numfiles, heap); None on failure"""
+    txt = ['From Coq Require Import ZArith List.', 'From Pnc Require Import Gen_consts Files.', 'Import ListNotations.',
+           'Local Open Scope Z_scope.', 'Set Printing Depth 10000000.', 'Set Printing Width 1000.',
+           'Definition cases : list (list ev) := [']
+    txt.append(';\n'.join('  [' + '; '.join(h) + ']' for h in hists))
+    txt.append('].')
+    txt.append('Eval vm_compute in (map (fun h => (run_codes h, final_numfiles h, final_heap h)) cases).')
+    name = 'Cases_%s' % tag
+    open(os.path.join(wd, name + '.v'), 'w').write('\n'.join(txt) + '\n')
+    for attempt in (0, 1):
+        rc, out = C.sh(['coqc', '-Q', C.COQ, 'Pnc', '-w', '-all', name + '.v'], cwd=wd, timeout=900)
+        if rc == 0:
+            break
+        if attempt == 0:
+            # e.g. Files.vo older than a regenerated Gen_modes.vo because the proof build stopped early
+            C.coq_make(['Files.vo'])
+    if rc != 0:
+        return None, out[-1500:]
+    body = out[out.index('='):]
+    nums = [int(x) for x in re.findall(r'-?\d+', body.replace('%Z', ''))]
+    res = []
+    p = 0
+    try:
+        for h in hists:
+            n = len(h)
+            ev = [(nums[p + 2 * j], nums[p + 2 * j + 1]) for j in range(n)]
+            p += 2 * n
+            res.append((ev, nums[p], nums[p + 1]))
+            p += 2
+    except IndexError:
+        return None, 'cannot parse the model output'
+    if p != len(nums):
+        return None, 'cannot parse the model output (%d of %d numbers consumed)' % (p, len(nums))
+    return res, ''
+
+
+# ------------------------------------------------------------------ the 1024-file harness
+def run_limit(exe, wd, tag, debug):
+    d = os.path.join(wd, 'lim-' + tag)
+    os.makedirs(d, exist_ok=True)
+    e = dict(os.environ); e.update(C17_REPORT=os.path.join(d, 'rep'), PNETCDF_SAFE_MODE='0')
+    rc, out = C.sh([exe, d, '3'], timeout=900, env=e)
+    obs = []
+    for l in out.split('\n'):
+        p = l.split()
+        if p and not l.startswith('Warning') and all('=' in x for x in p[1:]):
+            obs.append((p[0], dict(x.split('=', 1) for x in p[1:])))
+    rep = [l.strip() for l in open(os.path.join(d, 'rep.0'))] if os.path.exists(os.path.join(d, 'rep.0')) else []
+    residues = sorted({re.sub(r'buf=0x[0-9a-f]+ ', '', l) for l in out.split('\n') if l.startswith('Warning: malloc')})
+    shutil.rmtree(d, ignore_errors=True)
+    # judge: nothing about which ids are handed out, only validity / distinctness / the bound / the table listing
+    bad = []
+    def I(v, k):
+        try: return int(v[k])
+        except (KeyError, ValueError): return None
+    want_held = {'full': MAXF, 'after_refused': MAXF, 'after_low_close': MAXF - 3, 'full_again': MAXF, 'empty': 0}
+    seen = set()
+    for key, v in obs:
+        seen.add(key if key != 'probe' else 'probe:' + v.get('tag', ''))
+        if key == 'fill' and (I(v, 'bad_rc') or I(v, 'bad_id')):
+            bad.append(('fill', 'filling the table: %s creates failed, %s returned an invalid or duplicate id' % (v.get('bad_rc'), v.get('bad_id'))))
+        elif key == 'probe':
+            w = want_held.get(v.get('tag'))
+            if not (I(v, 'count') == I(v, 'listed') == I(v, 'held') == w and I(v, 'list_bad') == 0):
+                bad.append(('table-listing', 'at "%s": inq_files_opened count %s, listed %s (%s entries not held), ids held by the program %s, expected %s'
+                            % (v.get('tag'), v.get('count'), v.get('listed'), v.get('list_bad'), v.get('held'), w)))
+        elif key == 'refused' and not (I(v, 'rc') == ENFILE and I(v, 'ncid') == -1):
+            bad.append(('not-refused', '%s #%s with NC_MAX_NFILES files open: rc %s ncid %s (expected NC_ENFILE, -1)' % (v.get('kind'), v.get('i'), v.get('rc'), v.get('ncid'))))
+        elif key in ('reopen17', 'again') and not (I(v, 'rc') == 0 and I(v, 'id_bad') == 0 and I(v, 'use_rc') == 0):
+            why = {1: 'an id outside 0..NC_MAX_NFILES-1 (the handle is lost)', 2: 'the id of a file that is still open'}.get(I(v, 'id_bad'), '')
+            bad.append(('reopen-after-low-close', '%s %s with a free slot in the table: rc %s, ncid %s %s, first use rc %s'
+                        % (key, v.get('kind'), v.get('rc'), v.get('ncid'), ('= ' + why) if why else '', v.get('use_rc'))))
+        elif key in ('low_close', 'close17') and not (I(v, 'rc') == 0 and I(v, 'after_rc') == EBADID):
+            bad.append(('close', '%s of id %s: rc %s, use afterwards rc %s (expected 0, NC_EBADID)' % (key, v.get('ncid'), v.get('rc'), v.get('after_rc'))))
+        elif key == 'close_all' and (I(v, 'bad_rc') or I(v, 'still_held')):
+            bad.append(('close', 'closing everything: %s closes failed, %s ids still held' % (v.get('bad_rc'), v.get('still_held'))))
+        elif key == 'close_after_all' and I(v, 'rc') != EBADID:
+            bad.append(('bad-id:accepted', 'close of id 0 after everything was closed: rc %s' % v.get('rc')))
+    for need in ('fill', 'probe:full', 'probe:after_low_close', 'probe:full_again', 'probe:empty', 'refused', 'again', 'close_all', 'close_after_all'):
+        if need not in seen:
+            bad.append(('incomplete', 'the harness did not reach "%s" (exit code %s): %s' % (need, rc, out[-300:])))
+            break
+    return dict(rc=rc, obs=obs, rep=rep, residues=residues, bad=bad, out=out[-1500:])
 
 
 # ------------------------------------------------------------------ named resource scenarios (observed part)
@@ -408,125 +589,118 @@ def scenarios():
 # ------------------------------------------------------------------ the check
 def run(ctx):
     lib = C.libdir()
-    impl = S.impl_exe(lib)
-    pr = C.prove(ctx.pid, gens=('consts', 'modes'), lib=lib)
-    proof_ok = ctx.add_proof(pr, CHECKER_CMD)
+    try:
+        pr = C.prove(ctx.pid, gens=('consts', 'modes'), lib=lib)
+        proof_ok = ctx.add_proof(pr, CHECKER_CMD)
+    except C.BuildFailure as e:
+        # a source shape the translator does not know: no proof — but the implementation is still examined below
+        pr = dict(failed=['translator: ' + str(e)[-400:]], log=str(e)[-2000:])
+        proof_ok = False
+        ctx.cov['obligations'] = max(ctx.cov['obligations'], 1)
     ctx.cov['trusted_base'] = list(C.TRUSTED_COMMON) + [
         'translator tools/tr_modes.py (shape of PNC_check_id / new_id_PNCList / del_from_PNCList, ENFILE exits of ncmpi_create / ncmpi_open)',
-        'model runs by coqc Eval vm_compute on generated Cases_*.v; rendering of events to script lines in checks/C17.py',
-        'harness/pnc_impl.c, harness/c17_limit.c, harness/c17_shim.c (PMPI interposition: counts are of calls made through the MPI_ API names)',
+        'model runs by coqc Eval vm_compute on generated Cases_*.v; rendering of events to script lines and the log-only oracle in checks/C17.py',
+        'harness/pnc_impl.c, harness/c17_limit.c, harness/c17_shim.c (PMPI interposition: counts are of calls made through the MPI_ API names; '
+        'ncmpi_inq_files_opened sampled at every script barrier)',
         'resource part: ncmpi_inq_malloc_size of a --enable-debug build (NCI_Malloc tracing of the library itself)']
     wd = C.scratch('c17.')
     thorough = ctx.tier == 'thorough'
     libd = C.libdir('debug')
-    impl_shim = C.build_c(lib, [S.IMPL_SRC, os.path.join(C.VERIF, 'harness', 'c17_shim.c')], 'c17_impl')
-    impl_dbg = C.build_c(libd, [S.IMPL_SRC, os.path.join(C.VERIF, 'harness', 'c17_shim.c')], 'c17_impl')
-    limit = C.build_c(lib, [os.path.join(C.VERIF, 'harness', 'c17_limit.c'), os.path.join(C.VERIF, 'harness', 'c17_shim.c')], 'c17_limit')
-    limit_dbg = C.build_c(libd, [os.path.join(C.VERIF, 'harness', 'c17_limit.c'), os.path.join(C.VERIF, 'harness', 'c17_shim.c')], 'c17_limit')
+    shim = os.path.join(C.VERIF, 'harness', 'c17_shim.c')
+    impl_shim = C.build_c(lib, [S.IMPL_SRC, shim], 'c17_impl')
+    impl_dbg = C.build_c(libd, [S.IMPL_SRC, shim], 'c17_impl')
+    limit = C.build_c(lib, [os.path.join(C.VERIF, 'harness', 'c17_limit.c'), shim], 'c17_limit')
+    limit_dbg = C.build_c(libd, [os.path.join(C.VERIF, 'harness', 'c17_limit.c'), shim], 'c17_limit')
 
-    # ------------- A. id table: histories, model, implementation
+    # ------------- A1. id table: histories on the implementation, judged from the log alone
     hists = fixed_histories()
     nrand = 1200 if thorough else 160
     for i in range(nrand):
         rng = ctx.rng.fork('life-%d' % i)
-        evs, feats = gen_history(rng, 12 + rng.below(30), allow_crash=(i % 4 == 0))
-        hists.append(('life-%d' % i, evs, feats))
-    models = []
-    for j in range(0, len(hists), 300):
-        res, err = model_results([h[1] for h in hists[j:j + 300]], wd, 'a%d' % j)
-        if res is None:
-            ctx.violation('corr_C17_model: the model could not be run on the generated histories', dict(error=err, relation='corr_C17_model'), no_input=True)
-            return
-        models += res
-    stats = dict(histories=len(hists), events=0, by_kind={}, by_rc={}, predicted_crash=0, crashed=0, compared=0)
-    mism, crashes, nocrash = [], [], []
+        hists.append(('life-%d' % i, gen_history(rng, 12 + rng.below(30))))
+    stats = dict(histories=len(hists), events=0, by_kind={}, by_rc={}, oracle_failures=0, crashed=0, table_probes=0, compared_with_model=0,
+                 ids_not_open_refused=0, ids_open_accepted=0)
     def one(k):
-        name, evs, _ = hists[k]
+        name, evs = hists[k]
         script, where = script_of(evs)
-        rc, out, logs, reps = run_impl(impl_shim, script, wd, 'h%d' % k, timeout=120)
-        return k, script, where, rc, out, logs, reps
+        return (k, script, where) + run_impl(impl_shim, script, wd, 'h%d' % k, timeout=120)
+    oracle = {}            # key -> list of (len(script), name, what, script, event index)
+    judged = {}
     leak_hits = {}
     with cf.ThreadPoolExecutor(max_workers=8) as ex:
-        for k, script, where, rc, out, logs, reps in ex.map(one, range(len(hists))):
-            name, evs, _ = hists[k]
-            mres, mnum, mheap = models[k]
+        for k, script, where, rc, out, logs, reps, probes in ex.map(one, range(len(hists))):
+            name, evs = hists[k]
             lg, lastline = logs[0]
-            pred_crash = any(r == (-7777, -7777) for r in mres)
-            ctx.count(name + ' ' + ' | '.join(e.coq for e in evs), nontrivial=any(r[0] != 0 for r in mres))
-            stats['predicted_crash'] += pred_crash
-            crashed = rc not in (0, -9)
-            for e, ln, (mrc, mid) in zip(evs, where, mres):
-                stats['events'] += 1
-                stats['by_kind'][e.kind] = stats['by_kind'].get(e.kind, 0) + 1
-                if mrc == -7777:
-                    # the model says: NULL dereference. The implementation must have died on this very line
-                    if ln in lg:
-                        nocrash.append(dict(history=name, event=e.coq, what=e.what, impl=lg[ln][:3], script=script))
-                    break
-                t = lg.get(ln)
-                if t is None:
-                    if crashed or rc == -9:
-                        crashes.append(dict(history=name, event=e.coq, what=e.what, rc=rc, script=script, predicted=False, detail=out[-400:]))
-                    else:
-                        mism.append(dict(history=name, event=e.coq, what='no log line', script=script))
-                    break
-                stats['compared'] += 1
-                try:
-                    irc = int(t[1])
-                except ValueError:
-                    irc = None
-                stats['by_rc'][str(irc)] = stats['by_rc'].get(str(irc), 0) + 1
-                bad = irc != mrc
-                if e.kind in ('create', 'open'):
-                    iid = int(t[2]) if len(t) > 2 else None
-                    bad = bad or iid != mid
-                if bad:
-                    mism.append(dict(history=name, event=e.coq, what=e.what, impl=t[:3], model=[mrc, mid], script=script))
-            if pred_crash and crashed:
+            fails, coq, obs, feats = judge(evs, where, rc, out, lg, lastline, probes[0])
+            judged[k] = (fails, coq, obs, feats, script)
+            ctx.count(name + ' ' + ' | '.join(l for e in evs for l in e.lines), nontrivial=any(o[0] != 0 for o in obs))
+            stats['events'] += len(obs)
+            stats['table_probes'] += len(probes[0])
+            if rc != 0:
                 stats['crashed'] += 1
-                crashes.append(dict(history=name, event=[e.coq for e, r in zip(evs, mres) if r[0] == -7777][0],
-                                    what=[e.what for e, r in zip(evs, mres) if r[0] == -7777][0], rc=rc, script=script, predicted=True,
-                                    detail=out[-300:]))
-            if not crashed and rc == 0 and reps[0]:
+            for e, o in zip(evs, obs):
+                stats['by_kind'][e.kind] = stats['by_kind'].get(e.kind, 0) + 1
+                stats['by_rc'][str(o[0])] = stats['by_rc'].get(str(o[0]), 0) + 1
+                if e.kind not in ('create', 'open'):
+                    stats['ids_not_open_refused' if o[0] == EBADID else 'ids_open_accepted'] += 1
+            for f in fails:
+                stats['oracle_failures'] += 1
+                oracle.setdefault(f['key'], []).append((len(script), name, f['what'], script, f['event'], k))
+            if not fails and rc == 0 and reps[0]:
                 for kind, detail in leaks_of(parse_report(reps[0][-1]), debug=False):
-                    feats = sorted(hists[k][2])
-                    leak_hits.setdefault(('history:' + '+'.join(feats) if feats else 'history', kind), []).append(dict(history=name, detail=detail, script=script))
-    # ------------- B. the real limit
+                    leak_hits.setdefault(('history:' + '+'.join(sorted(feats)) if feats else 'history', kind), []).append(dict(history=name, detail=detail, script=script))
+
+    # ------------- B. the real limit (implementation only)
     lim = {}
     for tag, exe, dbg in (('default', limit, False), ('debug', limit_dbg, True)):
-        d = os.path.join(wd, 'lim-' + tag)
-        os.makedirs(d, exist_ok=True)
-        e = dict(os.environ); e.update(C17_REPORT=os.path.join(d, 'rep'), PNETCDF_SAFE_MODE='0')
-        rc, out = C.sh([exe, d, '3'], timeout=900, env=e)
-        obs = {}
-        for l in out.split('\n'):
-            p = l.split()
-            if p and not l.startswith('Warning'):
-                obs.setdefault(p[0], []).append(p[1:])
-        rep = [l.strip() for l in open(os.path.join(d, 'rep.0'))] if os.path.exists(os.path.join(d, 'rep.0')) else []
-        lim[tag] = dict(rc=rc, obs=obs, rep=rep, residues=sorted({re.sub(r'buf=0x[0-9a-f]+ ', '', l) for l in out.split('\n') if l.startswith('Warning: malloc')}))
-        shutil.rmtree(d, ignore_errors=True)
+        lim[tag] = run_limit(exe, wd, tag, dbg)
         ctx.count('limit-' + tag, nontrivial=True)
+
+    # ------------- A2. the same histories, with the ids that were observed, on the model
+    mism, model_err = [], None
+    sel = [k for k in range(len(hists)) if all(c is not None for c in judged[k][1]) and judged[k][1]]
+    models = {}
+    for j in range(0, len(sel), 300):
+        part = sel[j:j + 300]
+        try:
+            res, err = model_results([judged[k][1] for k in part], wd, 'a%d' % j)
+        except Exception as e:           # noqa: the model side must never hide what the implementation showed
+            res, err = None, repr(e)
+        if res is None:
+            model_err = err
+            break
+        for k, r in zip(part, res):
+            models[k] = r
+    for k, (mres, mnum, mheap) in models.items():
+        name, evs = hists[k]
+        fails, coq, obs, feats, script = judged[k]
+        for e, c, o, m in zip(evs, coq, obs, mres):
+            stats['compared_with_model'] += 1
+            if m == (-7777, -7777):
+                # the model (check as read from file.c) says NULL dereference: the implementation must have died here
+                mism.append(dict(history=name, event=c, what=e.what, impl=list(o), model='crash', script=script))
+                break
+            if e.kind in ('create', 'open'):
+                bad = (o[0] != m[0]) or (o[1] != m[1])
+            elif e.kind in ('close', 'abort', 'post') or e.inquiry:
+                bad = o[0] != m[0]
+            else:
+                bad = (o[0] == EBADID) != (m[0] == EBADID)       # any family on an id: only refused / not refused is modelled
+            if bad:
+                mism.append(dict(history=name, event=c, what=e.what, impl=list(o), model=list(m), script=script))
+                break
+
     # ------------- C. resources: named scenarios + the lifecycle histories on the debug build + the communicator lifecycle
+    crashes = []
     scen = scenarios()
-    res_cases = [(s['name'], s) for s in scen]
-    nres = 0
-    def run_scen(item):
-        name, s = item
+    def run_scen(s):
         script = '\n'.join(['nprocs %d' % s['np'], 'env PNETCDF_SAFE_MODE=0'] + s['lines']) + '\n'
-        d = os.path.join(wd, 'sc-' + name)
-        os.makedirs(d, exist_ok=True)
-        if s.get('pre') == 'corrupt4':
-            open(os.path.join(d, 'f4.nc'), 'wb').write(CORRUPT)
-        rc, out, logs, reps = run_impl(impl_dbg, script, wd, 'sc-' + name, env=s.get('env'), np_=s['np'], timeout=180)
-        return name, script, rc, out, logs, reps
+        return (s['name'], script) + run_impl(impl_dbg, script, wd, 'sc-' + s['name'], env=s.get('env'), np_=s['np'], timeout=180)
     with cf.ThreadPoolExecutor(max_workers=6) as ex:
-        for name, script, rc, out, logs, reps in ex.map(run_scen, res_cases):
-            nres += 1
+        for name, script, rc, out, logs, reps, probes in ex.map(run_scen, scen):
             ctx.count('scenario ' + name + '\n' + script, nontrivial=True)
             if rc != 0:
-                crashes.append(dict(history='scenario:' + name, event=(logs[0][1] or ''), what=(logs[0][1] or 'scenario ' + name), rc=rc, script=script,
-                                    predicted=False, detail=out[-500:]))
+                crashes.append(dict(what='scenario %s: %s' % (name, logs[0][1] or ''), rc=rc, script=script, detail=out[-500:]))
                 continue
             for r, rp in enumerate(reps):
                 if not rp:
@@ -534,28 +708,23 @@ def run(ctx):
                 for kind, detail in leaks_of(parse_report(rp[-1]), debug=True):
                     residues = sorted({re.sub(r'buf=0x[0-9a-f]+ ', '', l) for l in out.split('\n') if l.startswith('Warning: malloc')})
                     leak_hits.setdefault((name, kind), []).append(dict(history=name, detail=detail, script=script, rank=r, residues=residues[:12]))
-    # lifecycle histories without predicted crash, on the debug build
-    nlife = 0
     def run_life(k):
-        name, evs, _ = hists[k]
-        script, where = script_of(evs)
-        rc, out, logs, reps = run_impl(impl_dbg, script, wd, 'd%d' % k, timeout=120)
-        return k, script, rc, out, reps
-    sel = [k for k in range(len(hists)) if not any(r == (-7777, -7777) for r in models[k][0])]
+        script = judged[k][4]
+        return (k,) + run_impl(impl_dbg, script, wd, 'd%d' % k, timeout=120)
+    sel = [k for k in range(len(hists)) if not judged[k][0]]
     if not thorough:
         sel = sel[:60]
+    nlife = 0
     with cf.ThreadPoolExecutor(max_workers=8) as ex:
-        for k, script, rc, out, reps in ex.map(run_life, sel):
+        for k, rc, out, logs, reps, probes in ex.map(run_life, sel):
             nlife += 1
             if rc != 0 or not reps[0]:
                 continue
             for kind, detail in leaks_of(parse_report(reps[0][-1]), debug=True):
                 residues = sorted({re.sub(r'buf=0x[0-9a-f]+ ', '', l) for l in out.split('\n') if l.startswith('Warning: malloc')})
-                # attribute the leak of a history to the feature it contains (pending requests at abort / close)
-                feats = sorted(hists[k][2])
-                feat = 'history:' + '+'.join(feats) if feats else 'history'
-                leak_hits.setdefault((feat, kind), []).append(dict(history=hists[k][0], detail=detail, script=script, residues=residues[:12]))
-    # a sample of the mode-machine scripts of C14 (every API family, every mode, rejected and accepted calls) on the debug build
+                feats = sorted(judged[k][3])
+                leak_hits.setdefault(('history:' + '+'.join(feats) if feats else 'history', kind), []).append(
+                    dict(history=hists[k][0], detail=detail, script=judged[k][4], residues=residues[:12]))
     nmodes = 0
     try:
         from checks import C14
@@ -566,10 +735,9 @@ def run(ctx):
         pick = [descs[i] for i in range(ctx.seed % stride, len(descs), stride)]
         def run_modes(desc):
             script, _ = C14.history_script(desc, mexe)
-            rc, out, logs, reps = run_impl(impl_dbg, script, wd, 'm-' + hashlib.sha1(script.encode()).hexdigest()[:10], timeout=180)
-            return desc, script, rc, out, reps
+            return (desc, script) + run_impl(impl_dbg, script, wd, 'm-' + hashlib.sha1(script.encode()).hexdigest()[:10], timeout=180)
         with cf.ThreadPoolExecutor(max_workers=8) as ex:
-            for desc, script, rc, out, reps in ex.map(run_modes, pick):
+            for desc, script, rc, out, logs, reps, probes in ex.map(run_modes, pick):
                 nmodes += 1
                 ctx.count('modes-sample ' + C14.desc_tag(desc), nontrivial=True)
                 if rc != 0 or not reps[0]:
@@ -577,10 +745,8 @@ def run(ctx):
                 for kind, detail in leaks_of(parse_report(reps[0][-1]), debug=True):
                     residues = sorted({re.sub(r'buf=0x[0-9a-f]+ ', '', l) for l in out.split('\n') if l.startswith('Warning: malloc')})
                     leak_hits.setdefault(('modes-script', kind), []).append(dict(history=C14.desc_tag(desc), detail=detail, script=script, residues=residues[:12]))
-    except C.BuildFailure as e:
-        ctx.cov['modes_sample_skipped'] = str(e)[-300:]
-    stats['mode_machine_scripts_on_debug_build'] = nmodes
-    # communicator lifecycle (c17_limit comm), 1 and 2 ranks, debug build
+    except Exception as e:            # model of C14 not buildable on this tree: the sample is skipped, nothing else
+        ctx.cov['modes_sample_skipped'] = repr(e)[-300:]
     comm_obs = {}
     for np_ in (1, 2):
         d = os.path.join(wd, 'comm%d' % np_)
@@ -594,72 +760,65 @@ def run(ctx):
         ctx.count('comm-lifecycle np=%d' % np_, nontrivial=True)
         shutil.rmtree(d, ignore_errors=True)
 
-    stats['resource_scenarios'] = nres
+    stats['resource_scenarios'] = len(scen)
     stats['lifecycle_histories_on_debug_build'] = nlife
+    stats['mode_machine_scripts_on_debug_build'] = nmodes
     ctx.cov['rule'] = ('id table: %d hand-written + %d generated histories of 12-42 events (create ok / NOCLOBBER-existing, open ok / missing / not netCDF / '
-                       '5-byte file, close, abort, API calls of %d families, iput) with valid, stale, never-used, boundary, negative and huge ids; one in four '
-                       'generated histories may contain a use of an empty in-range slot while a file is open (predicted NULL dereference, own process); '
-                       'non-trivial = some call is refused. Resources (OBSERVED): %d named scenarios + the crash-free histories on the --enable-debug build '
-                       'with the PMPI shim, the 1024-file harness on both builds, the communicator lifecycle on 1 and 2 ranks'
-                       % (len(fixed_histories()), nrand, len(API_ANY), len(scen)))
+                       '5-byte file / corrupt header, close, abort, inquiries and nonblocking posts on open ids, %d API families through released or unused '
+                       'slots, %d families on literal negative / huge / boundary / never-used ids); ids are whatever the library returned; after every event '
+                       'ncmpi_inq_files_opened is sampled; judged by the log-only oracle, then compared with the Coq model; non-trivial = some call is refused. '
+                       'harness c17_limit: NC_MAX_NFILES files, refused creates/opens, close low ids out of order, reopen, full again, close all (both builds). '
+                       'Resources (OBSERVED): %d named scenarios + the histories on the --enable-debug build with the PMPI shim, the communicator lifecycle on 1 and 2 ranks'
+                       % (len(fixed_histories()), nrand, len(API_STALE), len(API_ANY), len(scen)))
     ctx.cov['distribution'] = stats
     ctx.cov['proof_vs_observation'] = dict(
-        proved='ncid table: Properties_C17.v (check_id soundness fixed/refuted/partial/current, ids_valid_exactly_between, id_reuse_first_free, max_files, '
-               'files_independent, table_invariant, pnc_objects_*), tied by return-code/ncid correspondence on the histories above',
+        proved='ncid table: Properties_C17.v (check_id soundness fixed/refuted/partial/current, ids_valid_exactly_between, new_id_finds_free_slot (+ refuted variant), '
+               'id_reuse_first_free, max_files, files_independent, table_invariant, pnc_objects_*), tied by return-code/ncid correspondence on the histories above',
+        implementation_only_oracle='validity / distinctness of returned ids, NC_EBADID exactly for ids not open, NC_EPENDING exactly with pending requests, '
+               'NC_ENFILE exactly with NC_MAX_NFILES files open, ncmpi_inq_files_opened = ids handed out and not released, survival',
         observed='heap = 0 (ncmpi_inq_malloc_size, --enable-debug build) and MPI datatype/communicator/info/file-handle balances (PMPI shim) at MPI_Finalize '
                  'for the scenarios and histories that were run; no model, no proof')
-    ctx.cov['limit_harness'] = {k: dict(rc=v['rc'], creates=v['obs'].get('creates'), extra_create=v['obs'].get('extra_create'),
-                                        extra_open=v['obs'].get('extra_open'), reuse=[v['obs'].get('reuse0'), v['obs'].get('reuse1'), v['obs'].get('reuse2')],
-                                        final=v['rep'][-1:] ) for k, v in lim.items()}
+    ctx.cov['limit_harness'] = {k: dict(rc=v['rc'], failures=[b[1] for b in v['bad']][:6], final=v['rep'][-1:]) for k, v in lim.items()}
 
     # ------------- verdicts
     oracle_failed = False
-    # 1a. crash of the implementation = violation of "returns the bad-id error instead of crashing"
-    pc = [c for c in crashes if c['predicted']]
-    if pc:
+    # 1a. the log-only oracle on the histories
+    for key, items in sorted(oracle.items()):
         oracle_failed = True
-        c = min(pc, key=lambda x: len(x['script']))
-        fams = sorted({x['what'].split()[0] for x in pc})
-        ctx.violation('a call with an id that is not open (slot empty, another file open) kills the process instead of returning NC_EBADID: '
-                      '%s (rc %s); %d such histories, API families: %s' % (c['what'], c['rc'], len(pc), fams),
-                      dict(script=c['script'], event=c['event'], relation='oracle_no_crash', detail=c['detail']), key='check_id:null-slot')
-    for c in [c for c in crashes if not c['predicted']]:
-        oracle_failed = True
-        ctx.violation('the implementation died or hung where the model predicts a return code: %s (rc %s)' % (c['what'], c['rc']),
-                      dict(script=c['script'], event=c['event'], relation='oracle_no_crash', detail=c['detail']),
-                      key='crash:%s' % (c['what'].split()[0] if c['what'] else 'unknown'))
+        n, name, what, script, j, k = min(items)
+        ctx.violation('%s (%d occurrences in %d histories; shortest: %s)' % (what, len(items), len({x[1] for x in items}), name),
+                      dict(script=script, history=name, event_index=j, events=ev_dump(hists[k][1]), relation='oracle_ids'), key=key)
     # 1b. the limit
     for tag, v in lim.items():
-        o = v['obs']
-        want_ok = (v['rc'] == 0 and o.get('creates') == [[str(MAXF), 'bad_rc', '0', 'bad_id', '0']] and
-                   all(x == [str(i), 'rc', str(ENFILE), 'ncid', '-1'] for i, x in enumerate(o.get('extra_create', []))) and len(o.get('extra_create', [])) == 3 and
-                   all(x == [str(i), 'rc', str(ENFILE), 'ncid', '-1'] for i, x in enumerate(o.get('extra_open', []))) and len(o.get('extra_open', [])) == 3 and
-                   o.get('reuse0') == [['rc', '0', 'ncid', '5']] and o.get('reuse1') == [['rc', '0', 'ncid', '7']] and
-                   o.get('reuse2') == [['rc', str(ENFILE), 'ncid', '-1']] and o.get('closes') == [[str(MAXF), 'bad_rc', '0']] and
-                   o.get('files_opened', [])[-1:] == [['0']] and o.get('close_after_all') == [['rc', str(EBADID)]])
-        if not want_ok:
+        groups = {}
+        for kk, msg in v['bad']:
+            groups.setdefault(kk, []).append(msg)
+        for kk, msgs in sorted(groups.items()):
             oracle_failed = True
-            ctx.violation('the %d-file limit does not behave as documented on the %s build' % (MAXF, tag),
-                          dict(observations={k: x[:6] for k, x in o.items()}, rc=v['rc'], relation='oracle_max_files'), key='max_files:%s' % tag)
-        if v['rep']:
+            ctx.violation('%d-file harness (%s build): %s%s' % (MAXF, tag, msgs[0], (' (+%d more)' % (len(msgs) - 1)) if len(msgs) > 1 else ''),
+                          dict(harness='c17_limit', build=tag, failures=msgs[:12], output=v['out'], relation='oracle_max_files'), key='max_files:' + kk)
+        if v['rep'] and not v['bad']:
             for kind, detail in leaks_of(parse_report(v['rep'][-1]), debug=(tag == 'debug')):
                 leak_hits.setdefault(('enfile-refused-create-open', kind), []).append(dict(history='c17_limit ' + tag, detail=detail, residues=v['residues'][:8],
-                                                                                           reports=v['rep']))
+                                                                                           reports=v['rep'], harness='c17_limit', build=tag))
+    for c in crashes:
+        oracle_failed = True
+        ctx.violation('the implementation died or hung in %s (rc %s)' % (c['what'], c['rc']),
+                      dict(script=c['script'], relation='oracle_no_crash', detail=c['detail']), key='crash:' + c['what'].split(':')[0].replace(' ', '-'))
     for np_, v in comm_obs.items():
         if v['rc'] != 0:
             oracle_failed = True
-            ctx.violation('communicator lifecycle harness failed (np=%d)' % np_, dict(out=v['out'], relation='oracle_no_crash'), key='crash:comm-lifecycle')
+            ctx.violation('communicator lifecycle harness failed (np=%d)' % np_, dict(out=v['out'], harness='c17_limit comm', relation='oracle_no_crash'),
+                          key='crash:comm-lifecycle')
         for r, rp in enumerate(v['reps']):
-            prev = None
             for line in rp:
                 tagl = line.split()[0]
                 for kind, detail in leaks_of(parse_report(line), debug=True):
                     if tagl == 'C17' or kind == 'heap':
                         where_ = tagl.replace('C17@', '') if tagl != 'C17' else 'final'
                         leak_hits.setdefault(('comm-lifecycle:' + where_, kind), []).append(dict(history='c17_limit comm np=%d rank %d' % (np_, r), detail=detail,
-                                                                                               out=v['out'][-600:]))
-    # 1c. leaks (OBSERVED part)
-    # heap residues are grouped by the functions that allocated them (the cause), MPI objects by scenario
+                                                                                               out=v['out'][-600:], harness='c17_limit comm'))
+    # 1c. leaks (OBSERVED part): heap residues grouped by the functions that allocated them (the cause), MPI objects by scenario
     groups = {}
     for (name, kind), hits in sorted(leak_hits.items()):
         for h in hits:
@@ -671,9 +830,8 @@ def run(ctx):
             else:
                 key = 'leak:%s:%s' % (kind, name)
             groups.setdefault(key, []).append((name, kind, h))
-    # the communicator harness repeats abort-with-pending / attached-buffer: explained when a scenario group shows the same amount
     for key, items in sorted(groups.items()):
-        if key == 'leak:heap:comm-lifecycle' and any(k.startswith('leak:heap:ncmpio_igetput_varm') for k in groups):
+        if key == 'leak:heap:comm-lifecycle' and any(k.startswith('leak:heap:') and k != key for k in groups):
             continue
         oracle_failed = True
         names = sorted({n for n, _, _ in items})
@@ -682,15 +840,14 @@ def run(ctx):
                       % (kind, h['detail'], ('; allocated at: ' + '; '.join(re.sub(r'Warning: malloc yet to be freed ', '', x) for x in h.get('residues', [])[:5]))
                          if h.get('residues') else '', len(items), ', '.join(names[:12])),
                       dict(script=h.get('script', ''), scenario=name, kind=kind, detail=h['detail'], residues=h.get('residues', []), relation='observed_resources',
-                           scenarios=names, build='debug' if kind == 'heap' else 'default/debug'), key=key)
-    # 2. model vs implementation
-    if nocrash:
-        m = nocrash[0]
-        ctx.violation('corr_C17_crash: the model (check as read from file.c) predicts a NULL dereference but the implementation returned %s for %s'
-                      % (m['impl'], m['what']), dict(script=m['script'], event=m['event'], relation='corr_C17_crash'), no_input=not oracle_failed)
+                           scenarios=names, build='debug' if kind == 'heap' else 'default/debug', harness=h.get('harness')), key=key)
+    # 2. model vs implementation, proofs
+    if model_err is not None:
+        ctx.violation('corr_C17_model: the model could not be run on the histories (the implementation-only oracle above was evaluated on all %d of them)'
+                      % len(hists), dict(error=model_err, relation='corr_C17_model'), no_input=not oracle_failed)
     if mism:
-        m = mism[0]
-        ctx.violation('corr_C17_rc: model and implementation disagree on a return code or ncid (%d cases), first: %s impl %s model %s'
+        m = min(mism, key=lambda x: len(x['script']))
+        ctx.violation('corr_C17_rc: model and implementation disagree on a return code or ncid (%d histories), shortest: %s impl %s model %s'
                       % (len(mism), m.get('what'), m.get('impl'), m.get('model')), dict(script=m['script'], event=m['event'], relation='corr_C17_rc',
                                                                                         others=[dict(x, script='') for x in mism[1:8]]), no_input=not oracle_failed)
     if not proof_ok:
@@ -699,26 +856,54 @@ def run(ctx):
 
 
 def replay(ctx, d):
-    lib = C.libdir('debug') if d.get('relation') == 'observed_resources' and d.get('kind') == 'heap' else C.libdir()
-    exe = C.build_c(lib, [S.IMPL_SRC, os.path.join(C.VERIF, 'harness', 'c17_shim.c')], 'c17_impl')
+    debug = d.get('build') == 'debug' or (d.get('relation') == 'observed_resources' and d.get('kind') == 'heap')
+    lib = C.libdir('debug') if debug else C.libdir()
+    shim = os.path.join(C.VERIF, 'harness', 'c17_shim.c')
     wd = C.scratch('c17r.')
+    if (d.get('harness') or '').startswith('c17_limit'):
+        exe = C.build_c(lib, [os.path.join(C.VERIF, 'harness', 'c17_limit.c'), shim], 'c17_limit')
+        if d['harness'].endswith('comm'):
+            rc, out = C.mpirun(1, exe, [wd, 'comm'], env={'C17_REPORT': os.path.join(wd, 'rep'), 'PNETCDF_SAFE_MODE': '0'}, timeout=300)
+            print(out[-3000:])
+            return 1 if rc else 0
+        v = run_limit(exe, wd, 'replay', debug)
+        for key, val in v['obs']:
+            print(key, ' '.join('%s=%s' % kv for kv in val.items()))
+        for l in v['rep']:
+            print(l)
+        for kk, msg in v['bad']:
+            print('FAIL [%s] %s' % (kk, msg))
+        leaks = leaks_of(parse_report(v['rep'][-1]), debug) if v['rep'] else []
+        for l in leaks:
+            print('IMBALANCE', l)
+        return 1 if (v['bad'] or leaks) else 0
     if not d.get('script'):
-        print('no script in this replay file (harness observation): %s' % d.get('what'))
+        print('no script in this replay file: %s' % d.get('what'))
         return 1
-    dd = os.path.join(wd, 'replay')
-    os.makedirs(dd, exist_ok=True)
-    open(os.path.join(dd, 'f4.nc'), 'wb').write(CORRUPT)
+    exe = C.build_c(lib, [S.IMPL_SRC, shim], 'c17_impl')
     np_ = S.nprocs_of(d['script'])
-    rc, out, logs, reps = run_impl(exe, d['script'], wd, 'replay', np_=np_, timeout=180)
+    rc, out, logs, reps, probes = run_impl(exe, d['script'], wd, 'replay', np_=np_, timeout=180)
+    k = 0
+    lines = d['script'].split('\n')
     for ln, t in sorted(logs[0][0].items()):
-        print('%4d %s' % (ln, ' '.join(t)[:120]))
+        extra = ''
+        if t[0] == 'barrier' and k < len(probes[0]):
+            extra = '    table: %d files, ids %s' % (probes[0][k][0], probes[0][k][2]); k += 1
+        print('%4d %-44s -> %s%s' % (ln, lines[ln - 1][:44] if ln - 1 < len(lines) else '', ' '.join(t[1:])[:60], extra))
     if logs[0][1]:
         print('last line started: ' + logs[0][1])
     print('exit code %s' % rc)
     bad = rc != 0
+    if d.get('events'):
+        evs = ev_load(d['events'])
+        script, where = script_of(evs)
+        fails, _, _, _ = judge(evs, where, rc, out, logs[0][0], logs[0][1], probes[0])
+        for f in fails:
+            print('FAIL [%s] %s' % (f['key'], f['what']))
+        bad = bad or bool(fails)
     for rp in reps:
         for l in rp:
             print(l)
-            bad = bad or bool(leaks_of(parse_report(l), debug=(d.get('kind') == 'heap')))
+            bad = bad or bool(leaks_of(parse_report(l), debug=debug))
     print(out[-1200:])
     return 1 if bad else 0
